@@ -132,9 +132,15 @@ def authorisedFor (pre : State) (op : Op) (d : Bytes) : Bool :=
     (match pre.getOrder oid with
      | some o => if o.dataId = d && o.status ≠ OrderCompleted then ownerOrRw o.owner else true
      | none => true)
-  -- scheduled expiry and automatic rollback are not requests
+  -- scheduled expiry and automatic rollback are not requests — but they are the *only* things the end-blocker may do to a
+  -- model: it rolls back one that has an update (or its creation) in flight, and removes one whose paid lifetime has ended;
+  -- a committed model with lifetime left is not its business (a stale schedule entry of a former model under the same data
+  -- id must not delete it: the `fix:` of F14, seeded change C09-10)
   | .cancel .. => true
-  | .end_ => true
+  | .end_ =>
+    (match pre.getMeta d with
+     | none => true
+     | some m => m.status ≠ MetaComplete || !(addU64 m.createdAt m.duration > toU64 pre.h))
   | _ => false
 
 def changedMetas (pre post : State) : List Bytes :=
